@@ -28,9 +28,16 @@ var inPlaceExceptions = map[string]string{
 	"object.(*Environment).BaseInfo | receiver of object.(*BigMap).Set": "populates the package-level info cache before it is first handed out (guarded by baseInfo.kv == nil); later in-place updates by Info() are reported separately",
 }
 
+// refStoreExceptions: element stores of possibly-Reference objects that are not container storage.
+var refStoreExceptions = map[string]string{
+	"eval.(Cache).Get | element store into []Object": "memoisation key, not a container; reached only for Hashable arguments and Hashable rejects references (its accepted tags are enumerated by C04.R4)",
+	"eval.(Cache).Set | element store into []Object": "memoisation key, not a container; reached only for Hashable arguments and Hashable rejects references (its accepted tags are enumerated by C04.R4)",
+}
+
 func runC06(c *Ctx, r *Report) {
 	r.Rule("C06.R1", "no in-place write (element store, append into spare capacity, copy into, slices.Insert/Delete/Grow, sort, or a call to a function summarised as mutating its receiver/argument) targets container storage that may be visible through another binding; storage is exclusively owned only when allocated in the function or handed in by every caller as such")
 	r.Rule("C06.R3", "x + y builds a new container: no result of evalArrayInfixExpression / evalMapInfixExpression may hold storage derived from an operand (ownership roots propagated through Elements, append, slicing, NewArray, the Append methods)")
+	r.Rule("C06.R4", "container storage holds values: an object that may be an object.Reference is dereferenced (object.Value) before it is stored into array or map storage; []Object lists that may hold References (argument lists) are followed through slicing, append, variables, returns and parameters, and are clean where they become storage (NewArray and other list-keeping functions, struct fields) only after a full-range sweep l[i] = object.Value(l[i])")
 	r.Rule("C06.R2", "small/large sibling agreement: every type switch over array or map representations has arms for both representations (or the interface)")
 	f := c.containerFresh()
 	finds, examined := f.Findings()
@@ -100,6 +107,34 @@ func runC06(c *Ctx, r *Report) {
 		}
 	}
 	r.Floor("C06.R3", 4)
+
+	// R4: container storage holds values, not References
+	{
+		rl := c.NewRefLists()
+		for _, sk := range rl.Sinks() {
+			r.Check(!sk.Raw, "C06.R4", ssaFuncName(sk.Fn), sk.Desc, c.Pos(instrPos(sk.At)),
+				"the list may still hold an object.Reference (an alias of a variable in an outer scope, as returned by evalIdentifier for a name read inside a function) when it becomes array storage: the element then changes whenever that variable is assigned (x=1; func f(){[x]}; a=f(); x=2; a is [2])")
+		}
+		finds, _ := rl.obj.Findings()
+		for _, f := range finds {
+			key := ssaFuncName(f.Fn) + " | " + f.Desc
+			if why, ok := refStoreExceptions[key]; ok {
+				r.OkWhy("C06.R4", ssaFuncName(f.Fn), f.Desc, c.Pos(instrPos(f.At)), "exception: "+why)
+				continue
+			}
+			if st, ok := f.At.(*ssa.Store); ok {
+				if ia, ok := st.Addr.(*ssa.IndexAddr); ok {
+					switch ia.X.(type) {
+					case *ssa.Alloc, *ssa.MakeSlice:
+						r.OkWhy("C06.R4", ssaFuncName(f.Fn), f.Desc+" (local list)", c.Pos(instrPos(f.At)), "the target is a list built in this function: tracked as a list that may hold References up to the places where lists become storage")
+						continue
+					}
+				}
+			}
+			r.Fail("C06.R4", ssaFuncName(f.Fn), f.Desc, c.Pos(instrPos(f.At)), "an object that may be an object.Reference is stored into container storage without object.Value: the stored element aliases a variable of an outer scope; reached: "+strings.Join(f.Sinks, "; "))
+		}
+		r.Floor("C06.R4", 20)
+	}
 	c.checkSiblingSwitches(r, "C06.R2", "array")
 	c.checkSiblingSwitches(r, "C06.R2", "map")
 	r.Floor("C06.R2", 6)
@@ -185,4 +220,84 @@ func init() {
 		assume:  []string{"no pointer analysis is available: storage not allocated locally or received from all callers as owned is treated as possibly shared", "values loaded from the environment or from containers are shared"},
 		run:     runC06,
 	})
+}
+
+// referenceSpec: objects that may be an object.Reference (an alias of a binding in an outer
+// environment, created by makeRef and returned by Get) must be dereferenced before they are
+// stored into container storage. Binding stores are the mechanism itself and are not sinks here.
+func (c *Ctx) referenceSpec() TaintSpec {
+	refT := c.TypeNamed("object", "Reference")
+	objT := c.TypeNamed("object", "Object")
+	kvT := c.P("object").Types.Scope().Lookup("keyValuePair")
+	san := map[*types.Func]bool{
+		c.Fn("object", "Value"):              true,
+		c.Fn("object", "Reference.ObjValue"): true,
+	}
+	isObj := func(t types.Type) bool { return types.Identical(t, objT) }
+	refTag := c.tagConst("REFERENCE")
+	return TaintSpec{
+		Name: "reference",
+		Source: func(v ssa.Value) bool {
+			mi, ok := v.(*ssa.MakeInterface)
+			return ok && types.Identical(mi.X.Type(), refT)
+		},
+		Sanitizer: func(f *types.Func) bool { return san[f] },
+		CleanAt: func(v ssa.Value, use ssa.Instruction) bool {
+			tags, known := c.tagsAt(v, use.Block())
+			return known && !tags[refTag]
+		},
+		StorageStruct: func(n *types.Named) bool { return kvT != nil && n.Obj() == kvT },
+		Carrier: func(t types.Type) bool {
+			it, ok := t.Underlying().(*types.Interface)
+			return ok && types.Implements(refT, it)
+		},
+		RawSink: func(in ssa.Instruction) (ssa.Value, string) {
+			isKV := func(t types.Type) bool {
+				n, ok := t.(*types.Named)
+				return ok && kvT != nil && n.Obj() == kvT
+			}
+			elemOf := func(a *ssa.IndexAddr) types.Type {
+				switch u := a.X.Type().Underlying().(type) {
+				case *types.Slice:
+					return u.Elem()
+				case *types.Pointer:
+					if arr, ok := u.Elem().Underlying().(*types.Array); ok {
+						return arr.Elem()
+					}
+				}
+				return nil
+			}
+			if x, ok := in.(*ssa.Store); ok {
+				switch a := x.Addr.(type) {
+				case *ssa.IndexAddr:
+					elem := elemOf(a)
+					if elem != nil && isObj(elem) {
+						return x.Val, "element store into []Object"
+					}
+					if elem != nil && isKV(elem) {
+						return x.Val, "key/value pair store into map storage"
+					}
+				case *ssa.FieldAddr:
+					if ia, ok := a.X.(*ssa.IndexAddr); ok {
+						if elem := elemOf(ia); elem != nil && isKV(elem) {
+							st := elem.Underlying().(*types.Struct)
+							return x.Val, "store into map storage pair ." + st.Field(a.Field).Name()
+						}
+					}
+				}
+			}
+			return nil, ""
+		},
+	}
+}
+
+func init() {
+	dumpers["reftaint"] = func(c *Ctx) {
+		t := NewTaint(c, c.referenceSpec())
+		finds, checked := t.Findings()
+		fmt.Println("checked", checked)
+		for _, f := range finds {
+			fmt.Printf("%s | %s | %s | sinks: %s\n", ssaFuncName(f.Fn), f.Desc, c.Pos(instrPos(f.At)), strings.Join(f.Sinks, "; "))
+		}
+	}
 }
